@@ -36,7 +36,7 @@ GEOM_TOL = 1e-12
 # body-frame arrays the Scene pipeline reads from an Airplane
 PIPE_ATTRS = ("PC", "PC_CG", "dl", "u_a", "u_n", "u_s", "u_a_unswept", "u_n_unswept", "u_s_unswept", "P0", "P1", "P0_eff", "P1_eff", "P0_joint", "P1_joint",
               "P0_joint_eff", "P1_joint_eff", "r_0", "r_1", "r_0_joint", "r_1_joint", "r_0_mag", "r_1_mag", "r_0_joint_mag", "r_1_joint_mag",
-              "r_0_r_0_joint_mag", "r_0_r_1_mag", "r_1_r_1_joint_mag", "c_bar", "dS", "section_sweep")
+              "r_0_r_0_joint_mag", "r_0_r_1_mag", "r_1_r_1_joint_mag", "c_bar", "dS", "section_sweep", "CG")
 
 
 class GeometryMismatch(Exception):
@@ -64,6 +64,12 @@ def member(name, N):
         d["wings"]["main"]["connect_to"] = {"ID": 0, "y_offset": 0.35}
         d["wings"]["tail"] = {"ID": 2, "side": "left", "is_main": False, "connect_to": {"ID": 1, "location": "root", "dx": -3.0, "dz": -0.2},
                               "semispan": 1.5, "chord": 0.5, "sweep": 10.0, "airfoil": "a2", "grid": {"N": N, "reid_corrections": False}}
+        return d
+    if name == "k1":      # one-sided swept wing with the Kuchemann lifting-line offset (the locus depends on the sign conventions of sweep per side)
+        from checks.families import simple_airplane
+        d = simple_airplane(N=N, reid=False, sweep=18.0, dihedral=2.0, cg=(-0.2, 0.03, 0.0))
+        d["wings"]["main"]["side"] = "right"
+        d["wings"]["main"]["ll_offset"] = "kuchemann"
         return d
     return family_G(name, N=N)
 
@@ -152,9 +158,9 @@ def mirror_key(key):
     return "/".join(parts)
 
 
-def build(desc, st, solver, N):
+def build(desc, st, solver, N, airfoil=None):
     import machupX as MX
-    use_airfoil(UFAirfoil)
+    use_airfoil(airfoil or UFAirfoil)
     try:
         sc = MX.Scene({"units": "English", "solver": dict(solver), "scene": {"atmosphere": {"rho": 0.0023769, "V_wind": list(st["W"])}}})
         sc.add_aircraft("p", desc, state={"velocity": [100.0, 0.0, 5.0]})
@@ -287,6 +293,33 @@ def mirror_twin(ck, member, N, solver, label):
     Ctx.cur = None
 
 
+def mirror_geometry(ck, member, N, label):
+    """concrete part: the body-frame geometry the real constructors store for the mirrored description is the reflection of the original's
+    (1e-12); a mismatch in anything the pipeline reads is handed to the replay (real solves of both aircraft in mirrored states)"""
+    from checks.families import LinearAirfoil
+
+    def run():
+        z = [exact(0)] * 3
+        st = {"q": [exact(1), exact(0), exact(0), exact(0)], "p": z, "v": [exact(100), exact(0), exact(5)], "w": z, "W": z}
+        d = globals()["member"](member, N)
+        full = dict(use_swept_sections=True, use_total_velocity=True, use_in_plane=True)
+        apA = build(d, st, full, N, airfoil=LinearAirfoil)._airplanes["p"]
+        apB = build(mirror_dict(d), st, full, N, airfoil=LinearAirfoil)._airplanes["p"]
+        perm, report, bad = relate_geometry(apA, apB)
+        return {"perm": perm, "report": report, "bad": bad}
+    res = explore(run, max_paths=2)
+    ck.add_paths(res)
+    for p in res:
+        if not p.ok:
+            ck.inconc("%s: %s %r %s" % (label, p.kind, p.exc, (p.tb or "")[-600:]))
+            continue
+        v = p.value
+        ess = ["control points"] if v["perm"] is None else [k for k in v["bad"] if k in PIPE_ATTRS]
+        mk = lambda ob, member=member, N=N: Finding("mirror", {"member": member, "N": N, "solver": {}, "what": ob.label}, ob.label, ob.model)
+        ck.add([Obligation("%s: stored body-frame geometry of the mirrored description is the reflection of the original's (mismatch in %s)" % (label, ess[:6]), [], z3.BoolVal(not ess), meta={"finding": mk})])
+        ck.sample({"case": label, "row_permutation": v["perm"], "relations": len(v["report"]), "unrelated": v["bad"]})
+
+
 # ---- replay ------------------------------------------------------------------------------------------------------
 def replay_mirror(inp):
     """solve the real nonlinear problem for the aircraft and for its mirror image in the mirrored state; compare all reported loads"""
@@ -345,11 +378,17 @@ def main(tier, seed, only=None):
         # g1 (self-mirror, N=4) and g2 (90 deg fin with Reid corrections, N=7) are written but were never run end-to-end in the session; not registered
         plan += [("g3", 2, full, "mirror g3 left wing + right stab with y_offset N=4")]
     tasks = []
+    geom = [("k1", 4, "mirror geometry k1 right-only swept wing with Kuchemann offset N=4"), ("g2", 2, "mirror geometry g2 wing + 90deg fin, Reid N=7"), ("g4", 2, "mirror geometry g4 chained segments + winglets N=12"),
+            ("g5", 2, "mirror geometry g5 wing + tail with control surfaces N=8")]
+    for member, N, label in geom:
+        if only and not any(o in label for o in only):
+            continue
+        tasks.append((label, lambda c, member=member, N=N, label=label: mirror_geometry(c, member, N, label)))
     for member, N, solver, label in plan:
         if only and not any(o in label for o in only):
             continue
         tasks.append((label, lambda c, member=member, N=N, solver=solver, label=label: mirror_twin(c, member, N, solver, label)))
     run_parallel(ck, tasks)
     ck.bound(pipeline="members m1, g6 (quick) + g3 (thorough), concrete body geometry, N <= 7; arbitrary unit quaternion, position, velocity, rates, wind, circulation, reference quantities")
-    ck.rung("pipeline mirror twin (assembly + kernel + integration)")
+    ck.rung("pipeline mirror twin (assembly + kernel + integration); concrete mirror relation of generated geometry")
     return ck.finish()
